@@ -11,7 +11,7 @@ from __future__ import annotations
 import ast
 
 from ..cfg import CFG, facts_at
-from ..core import AnalysisError, call_name, calls_in, src
+from ..core import AnalysisError, call_name, calls_in, const_str, src
 from ..raises import RaiseAnalysis
 
 EXPLANATION = (
@@ -83,3 +83,62 @@ def run(ctx):
     lit = m.func("str2literal")
     keys = sorted(k.value for n in ast.walk(lit) if isinstance(n, ast.Dict) for k in n.keys if isinstance(k, ast.Constant))
     r3.check(keys == ["false", "null", "true"], f"{m.rel}:str2literal:table", f"literal table is {keys}", m.rel, lit.lineno)
+
+    # ---- C34.4 numeric fallbacks are not gated more narrowly than json.dumps writes numbers ----
+    r4 = ctx.rule("C34.4", "int()/float() fallbacks admit every numeral json.dumps writes (no narrower gate)", floor=2)
+    import re as _re
+
+    # what json.dumps (= int.__repr__ / float.__repr__) writes for non-string scalars
+    witnesses = ["0", "-7", "12345678901234567890", "1.5", "-0.0", "1e-05", "1e+16", "-2.5e+300", "1.7976931348623157e+308", "5e-324", "Infinity", "-Infinity"]
+    known = {(f"not {pp}", False), (f"{pp}", True)}
+    for n in pcfg.nodes:
+        if not (n.kind == "stmt" and isinstance(n.ast, ast.Return) and isinstance(n.ast.value, ast.Call) and call_name(n.ast.value) in ("int", "float")):
+            continue
+        which = call_name(n.ast.value)
+        for f, t in sorted(facts_at(pcfg, n)):
+            if (f, t) in known or (f.startswith(f"{pp}[0] in") and not t):
+                continue
+            key = f"{m.rel}:parse_tag_value:{which}-gate"
+            pat = _gate_pattern(m, f, pp)
+            if pat is None:
+                raise AnalysisError(f"parse_tag_value: `return {which}(...)` is gated by `{f}` == {t}, an idiom this analysis cannot compare with the numerals json.dumps writes", "parse_tag_value")
+            rx, how = pat
+            rej = [w for w in witnesses if bool(getattr(rx, how)(w)) != t and (which == "float" or _re.fullmatch(r"-?[0-9]+", w))]
+            r4.check(
+                not rej,
+                key,
+                f"`return {which}({pp})` is reached only when `{f}` is {t}; that gate rejects {rej}, which format_tag_value writes for numbers (json.dumps): "
+                "such a number is displayed as a numeral that re-parses as a string",
+                m.rel,
+                n.lineno,
+            )
+        r4.good(f"{m.rel}:parse_tag_value:{which}-reachable", f"return {which}() gated only by the empty/JSON-prefix tests or a gate admitting all {len(witnesses)} numeral witnesses")
+
+
+def _gate_pattern(m, fact: str, pp: str):
+    """`NAME.fullmatch(pp)` / `re.fullmatch(PAT, pp)` (or match/search) with a constant pattern -> (compiled, method)."""
+    import re as _re
+
+    try:
+        e = ast.parse(fact, mode="eval").body
+    except SyntaxError:
+        return None
+    if not (isinstance(e, ast.Call) and isinstance(e.func, ast.Attribute) and e.func.attr in ("fullmatch", "match", "search")):
+        return None
+    how = e.func.attr
+    recv = src(e.func.value)
+    pat = None
+    flags = 0
+    if recv == "re" and len(e.args) >= 2 and src(e.args[1]) == pp:
+        pat = const_str(e.args[0])
+    elif len(e.args) == 1 and src(e.args[0]) == pp:
+        for a in m.tree.body:
+            if isinstance(a, ast.Assign) and any(isinstance(t, ast.Name) and t.id == recv for t in a.targets) and isinstance(a.value, ast.Call) and call_name(a.value) == "re.compile" and a.value.args:
+                pat = const_str(a.value.args[0])
+                if len(a.value.args) > 1 or a.value.keywords:
+                    fl = src(a.value.args[1] if len(a.value.args) > 1 else a.value.keywords[0].value)
+                    for name in fl.replace("re.", "").split("|"):
+                        flags |= int(getattr(_re, name.strip(), 0))
+    if pat is None:
+        return None
+    return _re.compile(pat, flags), how
